@@ -7,6 +7,21 @@ import os
 HERE = os.path.dirname(os.path.dirname(os.path.abspath(__file__)))
 
 CLAIMED = {
+    "C01": {
+        "text": "Coq theorems about a hand model of the two-phase strip scanners (next_str / next_bytes, as repaired) against an independent byte-level "
+                "specification built on the by-range VT model (Spec/Strip.v); the state table is translated on every run and proved equal to the by-range spec by "
+                "complete enumeration. Tie: differential execution of strip_bytes / strip_str (pieces with offsets and concatenations) vs extracted model and spec.",
+        "design_ref": "DESIGN.md section 6, C01",
+        "note": "Trusted: Coq kernel, translator, extraction, OCaml driver, Rust harness; utf8parse transcribed and tied by correspondence.",
+        "technique": "Coq proof (model = spec for all byte strings, finite table facts by kernel enumeration) + translator + differential correspondence",
+    },
+    "C03": {
+        "text": "Coq theorems that the strip machines are folds and that each incremental iterator leaves exactly the fold state behind, hence chunked = one-shot for "
+                "every partition; tie by differential execution of StripBytes / StripStr over all 2^(n-1) partitions of short inputs and random partitions of long ones.",
+        "design_ref": "DESIGN.md section 6, C03",
+        "note": "Trusted: Coq kernel, translator, extraction, OCaml driver, Rust harness; text API chunks are valid UTF-8 by type.",
+        "technique": "Coq proof (fold law + iterator-leaves-fold-state, all chunkings) + translator + differential correspondence",
+    },
     "C02": {
         "text": "Machine-checked Coq theorems about a hand model of Parser::advance (bounds-checked arrays, saturating arithmetic, early returns) "
                 "against an independent by-range specification of Williams' parser with the four documented deviations; the 16x256 table is "
